@@ -225,7 +225,7 @@ def rule_siblings(rep):
     def unsuffix(o):
         """locals brought in by an inlined helper carry a per-call-site suffix (`n__h5`): the comparison is up to those names"""
         if isinstance(o, str):
-            return _re.sub(r"__[ht]\d+", "", o)
+            return _re.sub(r"__[htz]\d+", "", o)
         if isinstance(o, (list, tuple)):
             return type(o)(unsuffix(x) for x in o)
         return o
